@@ -64,7 +64,7 @@ type origin struct {
 func (o *origin) sig(withHdr bool) string {
 	s := fmt.Sprintf("%d|%s|%s|%s", o.status, o.body, o.ctype, o.enc)
 	if withHdr {
-		s += "|" + o.xh
+		s += "|" + o.xh + "|<" + o.xh + "/a>; rel=\"next\",<" + o.xh + "/b>; rel=\"last\""
 	}
 	return s
 }
@@ -72,7 +72,11 @@ func (o *origin) sig(withHdr bool) string {
 func respSig(r *fasthttp.RequestCtx, withHdr bool) string {
 	s := fmt.Sprintf("%d|%s|%s|%s", r.Response.StatusCode(), r.Response.Body(), r.Response.Header.ContentType(), r.Response.Header.Peek("Content-Encoding"))
 	if withHdr {
-		s += "|" + string(r.Response.Header.Peek("X-Extra"))
+		var links []string
+		for _, v := range r.Response.Header.PeekAll("Link") {
+			links = append(links, string(v))
+		}
+		s += "|" + string(r.Response.Header.Peek("X-Extra")) + "|" + strings.Join(links, ",")
 	}
 	return s
 }
@@ -162,6 +166,9 @@ func newWorld(c Case) *world {
 			ctx.Set("Content-Encoding", o.enc)
 		}
 		ctx.Set("X-Extra", o.xh)
+		// a header with two values (pagination links, several Vary lines, ...)
+		ctx.Response().Header.Add("Link", "<"+o.xh+"/a>; rel=\"next\"")
+		ctx.Response().Header.Add("Link", "<"+o.xh+"/b>; rel=\"last\"")
 		err := ctx.Status(o.status).SendString(o.body)
 		w.sched.Yield("origin>")
 		return err
